@@ -80,6 +80,9 @@ def u64At (b : Bytes) (lo hi : Nat) : Res UInt64 := goSlice b lo hi >>= beU64
 def splice (d : Bytes) (off : Nat) (v : Bytes) : Bytes :=
   d.take off ++ v ++ d.drop (off + v.length)
 
+/-- store through a pointer to the `i`-th element of a container (no element there: nothing happens) -/
+def setAt {α : Type} (xs : List α) (i : Nat) (x : α) : List α := xs.set i x
+
 /-- `binary.BigEndian.PutUint16(d[lo:hi], v)` -/
 def putU16 (d : Bytes) (lo hi : Nat) (v : UInt16) : Res Bytes :=
   if lo + 2 ≤ hi ∧ hi ≤ d.length then .ok (splice d lo (put16 v)) else .fault
